@@ -373,6 +373,7 @@ func extHKDFRead(fr *frame, args []value) value {
 	i := fr.i
 	h := (*args[0].(*value)).(*hkdfState)
 	p := args[1].([]value)
+	i.noteWriteSlice(p)
 	if h.native != nil {
 		buf := make([]byte, len(p))
 		n, err := io.ReadFull(h.native, buf)
@@ -517,6 +518,7 @@ func extRandRead(fr *frame, args []value) value {
 		e.axiom(st.BNot(i.bytesEqTerm(zero, draw)))
 	}
 	cl.draws = append(cl.draws, draw)
+	i.noteWriteSlice(b)
 	copy(b, draw)
 	return tuple{len(b), iface{}}
 }
